@@ -12,6 +12,7 @@
    Key: 16 octets < 256; COUNT < 2^32; BEARER < 32; DIRECTION < 2.
    Length bounds (from the Go integer types): bit length + 31 < 2^32 for NEA1 / NEA3
    (dom n := 8 * n < 2^32 - 31 for the byte-length API), len < 2^63 for NEA2. *)
+From NV Require C19.Globals.
 From NV Require Import Lib.Base CAES.Util CAES.Spec CAES.Proofs_aes CAES.Proofs C08.Glue.
 From NV Require CAES.Model CS3G.Model CS3G.Spec CZUC.Model CZUC.Spec.
 From NV Require Import Props.CS3G Props.CZUC Props.CAES.
@@ -87,7 +88,16 @@ Proof.
   vm_compute. discriminate.
 Qed.
 
+(* the functions this property is about are functions of their arguments: the files it is anchored in declare
+   no package-level variable other than the pinned read-only tables (or a never-touched one of plain type) and
+   none of their functions writes, slices, takes the address of, passes on or calls a method of a
+   package-level variable (logger entries excepted) -- evaluated on the current source (C19/Globals.v) *)
+Theorem C06_anchor_files_keep_no_state :
+  Globals.hidden_state_free Globals.anchors_C06 = true.
+Proof. vm_compute. reflexivity. Qed.
+
 Print Assumptions C06_nea1_eq_eea1.
 Print Assumptions C06_nea2_eq_eea2.
 Print Assumptions C06_nea3_eq_eea3.
 Print Assumptions C06_nasencrypt_eq_standard.
+Print Assumptions C06_anchor_files_keep_no_state.
